@@ -82,3 +82,14 @@ Definition py_zfill (s : list ascii) (w : Z) : list ascii :=
   | c :: r => if Ascii.eqb c "+" || Ascii.eqb c "-" then c :: pad ++ r else pad ++ s
   | [] => pad
   end.
+
+(* ---- the generate_* wrappers ----------------------------------------------------------------- *)
+From Coq Require Import DecimalString.
+
+(* str(i) for an int *)
+Definition py_str (z : Z) : string := NilEmpty.string_of_int (Z.to_int z).
+
+(* Circuit.bare_circuit(n): a new circuit whose inputs are labelled str(0) ... str(n - 1)
+   (the text of Circuit.bare_circuit / bare_circuit_with_labels is compared literally by the translator) *)
+Definition py_bare_labels (n : Z) : list label := map py_str (py_range 0 n).
+Definition py_bare_circuit (n : Z) : res circuit := circuit_with_inputs (py_bare_labels n).
